@@ -376,7 +376,7 @@ def _setwise(exprs, values):
     return False
 
 
-def enumerate_exprs(max_depth, scratch=None, cap_per_type=None):
+def enumerate_exprs(max_depth, scratch=None, cap_per_type=None, cap_from_depth=3):
     """-> list of Expr, breadth-first by depth."""
     lv = leaves(scratch)
     by_type = {}
@@ -398,7 +398,7 @@ def enumerate_exprs(max_depth, scratch=None, cap_per_type=None):
         nxt = {}
         for t in set(level) | set(produced):
             newx = produced.get(t, [])
-            if cap_per_type is not None and len(newx) > cap_per_type:
+            if cap_per_type is not None and depth >= cap_from_depth and len(newx) > cap_per_type:
                 # keep an evenly spaced subset (deterministic) when a level explodes
                 step = len(newx) / float(cap_per_type)
                 newx = [newx[int(i * step)] for i in range(cap_per_type)]
